@@ -163,7 +163,10 @@ func (lg *locGen) op() map[string]interface{} {
 		if lg.profile == "expiry" {
 			lg.expiry(f)
 		}
-		if r.Intn(40) == 0 && lg.profile != "cronhooks" && !lg.hooks {
+		if r.Intn(40) == 0 {
+			// (with the cron hooks installed - the cronhooks profile, a third of the fuzz and dispatch
+			// cases - the add hook rejects the first, second and fourth of these: nothing may be left
+			// behind, in the memory or in the storage)
 			f["rule"] = pick(r, 5.0, "x", map[string]interface{}{"when": 5.0}, map[string]interface{}{"schedule": 5.0}).(interface{})
 		}
 		o["fact"] = f
